@@ -66,6 +66,7 @@ type Result struct {
 	Params      map[string]int    `json:"params"`
 	Terms       int               `json:"terms"`
 	Fallbacks   int               `json:"fallback_queries"`
+	QuerySites  map[string]int    `json:"query_sites,omitempty"`
 }
 
 type Job struct {
@@ -187,7 +188,7 @@ func runJob(prog *ssa.Program, fn *ssa.Function, j *Job, jf *JobFile, ov map[str
 		pm = map[string]int{}
 	}
 	ecfg := exec.Config{MaxSteps: flagOr(j, "max-steps", 2000000), MaxVisits: flagOr(j, "unwind", 64), MaxPaths: flagOr(j, "max-paths", 500000),
-		MaxDepth: flagOr(j, "max-depth", 64), AllocLimit: flagOr(j, "alloc-limit", 64), Params: pm, Preempt: flagOr(j, "preempt", 2), Verbose: verbose, Progress: flagOr(j, "progress", 20), MaxViolations: flagOr(j, "max-violations", 0), EagerChecks: flagOr(j, "lazy-checks", 0) == 0}
+		MaxDepth: flagOr(j, "max-depth", 64), AllocLimit: flagOr(j, "alloc-limit", 64), Params: pm, Preempt: flagOr(j, "preempt", 2), Verbose: verbose, Progress: flagOr(j, "progress", 20), MaxViolations: flagOr(j, "max-violations", 0), EagerChecks: flagOr(j, "lazy-checks", 0) == 0, Profile: flagOr(j, "profile", 0) == 1}
 	if b := flagOr(j, "budget-s", 0); b > 0 {
 		ecfg.Deadline = time.Now().Add(time.Duration(b) * time.Second)
 	}
@@ -206,7 +207,7 @@ func runJob(prog *ssa.Program, fn *ssa.Function, j *Job, jf *JobFile, ov map[str
 		OverLimit: m.Stats.OverLimit, UnwindHits: m.Stats.UnwindHits, Unknowns: m.Stats.Unknowns, Unsupported: m.Stats.Unsupported,
 		EngineErrors: m.Stats.EngineErrors, SolverErrors: sv.Errors, Queries: sv.Queries, QSat: sv.NSat, QUnsat: sv.NUnsat,
 		SolverTime: sv.Time.Seconds(), Solver: solver, Violations: m.Violations, Reached: m.Reached, SamplePCs: m.SamplePCs, Samples: m.Samples,
-		Params: pm, LoadTime: loadT, Terms: ctx.NumTerms(), Fallbacks: m.FallbackQueries}
+		Params: pm, LoadTime: loadT, Terms: ctx.NumTerms(), Fallbacks: m.FallbackQueries, QuerySites: m.QuerySites}
 	if res.Violations == nil {
 		res.Violations = []*exec.Violation{}
 	}
